@@ -28,11 +28,13 @@ import (
 	"encoding/json"
 	"fmt"
 	"io"
+	"runtime"
 	"strconv"
 	"sync"
 	"testing"
 	"testing/synctest"
 	"time"
+	"unsafe"
 
 	"github.com/apernet/hysteria/core/v2/internal/protocol"
 	"github.com/apernet/quic-go/quicvarint"
@@ -131,13 +133,42 @@ func c06Class(err error) string {
 	return "other:" + err.Error()
 }
 
-// one run's shared state
+// one relay's share of a run: its boundary log.  In a cross-relay run ("xrelay") all relays of the bubble share
+// ONE mutex and every event is also appended to the world's log, tagged with the relay and - for Read and
+// Write - with the identity of the memory the code handed in, so the world log is one linearisation of all relays.
 type c06Run struct {
-	mu    sync.Mutex
+	mu    *sync.Mutex
 	trace [][]any
+	idx   int
+	world *c06World
 }
 
-func (r *c06Run) rec(ev ...any) { r.trace = append(r.trace, ev) }
+// c06World: the log of a cross-relay run, [relay, buffer id, event...], and the interning of buffer addresses
+type c06World struct {
+	log [][]any
+	ids map[uintptr]int
+}
+
+func (r *c06Run) rec(ev ...any) { r.recBuf(nil, ev...) }
+
+// recBuf: p is the slice the code passed to Read / Write (nil for other events).  Called with mu held.
+func (r *c06Run) recBuf(p []byte, ev ...any) {
+	r.trace = append(r.trace, ev)
+	if r.world == nil {
+		return
+	}
+	id := -1
+	if cap(p) > 0 {
+		a := uintptr(unsafe.Pointer(unsafe.SliceData(p)))
+		k, ok := r.world.ids[a]
+		if !ok {
+			k = len(r.world.ids)
+			r.world.ids[a] = k
+		}
+		id = k
+	}
+	r.world.log = append(r.world.log, append([]any{r.idx, id}, ev...))
+}
 
 // c06End is one io.ReadWriter handed to the copy: reading it is the source of direction rd,
 // writing it is the sink of direction wd.
@@ -250,11 +281,11 @@ func (e *c06End) Read(p []byte) (int, error) {
 	e.run.mu.Lock()
 	defer e.run.mu.Unlock()
 	if e.isClosed() {
-		e.run.rec("R", e.rd, len(p), e.off, 0, "e"+strconv.Itoa(c06ErrReadClosed))
+		e.run.recBuf(p, "R", e.rd, len(p), e.off, 0, "e"+strconv.Itoa(c06ErrReadClosed))
 		return 0, c06FakeErr{c06ErrReadClosed}
 	}
 	if exhausted || len(e.reads) == 0 { // (second case: two readers on one end, only a broken relay does that)
-		e.run.rec("R", e.rd, len(p), e.off, 0, "e"+strconv.Itoa(c06ErrIdle))
+		e.run.recBuf(p, "R", e.rd, len(p), e.off, 0, "e"+strconv.Itoa(c06ErrIdle))
 		return 0, c06FakeErr{c06ErrIdle}
 	}
 	seg := &e.reads[0]
@@ -268,7 +299,7 @@ func (e *c06End) Read(p []byte) (int, error) {
 	for i := 0; i < k; i++ {
 		p[i] = byte((e.a*uint64(e.off+i) + e.b) % 256)
 	}
-	e.run.rec("R", e.rd, len(p), e.off, k, c06Class(err))
+	e.run.recBuf(p, "R", e.rd, len(p), e.off, k, c06Class(err))
 	e.last = e.off
 	e.off += k
 	seg.N -= k
@@ -290,7 +321,7 @@ func (e *c06End) Write(p []byte) (int, error) {
 	e.run.mu.Lock()
 	defer e.run.mu.Unlock()
 	if e.isClosed() {
-		e.run.rec("W", e.wd, len(p), c06Digest(p), 0, "e"+strconv.Itoa(c06ErrWriteClosed), e.sliceOf(p))
+		e.run.recBuf(p, "W", e.wd, len(p), c06Digest(p), 0, "e"+strconv.Itoa(c06ErrWriteClosed), e.sliceOf(p))
 		return 0, c06FakeErr{c06ErrWriteClosed}
 	}
 	nw := len(p)
@@ -299,7 +330,7 @@ func (e *c06End) Write(p []byte) (int, error) {
 	}
 	err := c06ErrOf(w.Err, c06ErrScript)
 	e.sink.Write(p[:nw])
-	e.run.rec("W", e.wd, len(p), c06Digest(p), nw, c06Class(err), e.sliceOf(p))
+	e.run.recBuf(p, "W", e.wd, len(p), c06Digest(p), nw, c06Class(err), e.sliceOf(p))
 	return nw, err
 }
 
@@ -350,100 +381,117 @@ func (l *c06Logger) LogOnlineState(id string, online bool)         {}
 func (l *c06Logger) TraceStream(stream HyStream, stats *StreamStats) {}
 func (l *c06Logger) UntraceStream(stream HyStream)                  {}
 
-func c06RunRelay(t *testing.T, c c06Case, res map[string]any) {
-	run := &c06Run{}
-	var stream, target *c06End
-	stats := &StreamStats{}
+// c06Rel: one relayed connection of a run: the scripted ends, its logger, its log, what the copy returned
+type c06Rel struct {
+	c              c06Case
+	id             string
+	run            *c06Run
+	stream, target *c06End
+	logger         *c06Logger
+	stats          *StreamStats
+	err            error
+	connClosed     bool
+	reqAddr        string
+	reqErr         string
+	reqFT          uint64
+}
+
+// c06NewRel builds the fakes of one relay.  Must be called inside the synctest bubble: channels made outside
+// make waiting on them not count as durably blocked.
+func c06NewRel(c c06Case, run *c06Run, id string) *c06Rel {
+	r := &c06Rel{c: c, id: id, run: run, stats: &StreamStats{}}
+	r.stream = &c06End{run: run, rd: "U", wd: "D", a: c.Up.A, b: c.Up.B, reads: append([]c06Read(nil), c.Up.Reads...),
+		writes: append([]c06Write(nil), c.Down.Writes...), closed: make(chan struct{})}
+	r.target = &c06End{run: run, rd: "D", wd: "U", a: c.Down.A, b: c.Down.B, reads: append([]c06Read(nil), c.Down.Reads...),
+		writes: append([]c06Write(nil), c.Up.Writes...), closed: make(chan struct{})}
+	r.stream.from, r.target.from = r.target, r.stream
+	r.logger = &c06Logger{run: run, logs: map[string][]c06Log{
+		"U": append([]c06Log(nil), c.Up.Logs...), "D": append([]c06Log(nil), c.Down.Logs...)}}
+	return r
+}
+
+// serve: what the server does with one accepted stream: the request phase (cases with "req"), the two-way copy,
+// the teardown.  Returns when the handler would return; the copy loop that did not finish first may still run.
+func (r *c06Rel) serve() {
+	c, run, stream, target := r.c, r.run, r.stream, r.target
+	if c.Req != nil {
+		// what the client wrote on the stream ahead of its payload (the frame WriteTCPRequest produces)
+		hdr := quicvarint.Append(nil, protocol.FrameTypeTCPRequest)
+		hdr = quicvarint.Append(hdr, uint64(len(c.Req.Addr)))
+		hdr = append(hdr, c.Req.Addr...)
+		hdr = quicvarint.Append(hdr, uint64(c.Req.Pad))
+		hdr = append(hdr, bytes.Repeat([]byte{'p'}, c.Req.Pad)...)
+		stream.hdr, stream.glue = hdr, c.Req.Glue
+		left := len(hdr)
+		for _, n := range c.Req.Segs {
+			if n > 0 && n < left {
+				stream.hsegs = append(stream.hsegs, n)
+				left -= n
+			}
+		}
+		stream.hsegs = append(stream.hsegs, left)
+		// server.go:246 (ProxyStreamHijacker) and server.go:276 (handleTCPRequest)
+		ft, ferr := quicvarint.Read(quicvarint.NewReader(stream))
+		var addr string
+		var rerr error
+		if ferr == nil {
+			addr, rerr = protocol.ReadTCPRequest(stream)
+		}
+		r.reqAddr, r.reqFT, r.reqErr = addr, ft, c06Class(ferr)
+		if ferr == nil {
+			r.reqErr = c06Class(rerr)
+		}
+		run.mu.Lock()
+		run.rec("A", r.reqErr)
+		run.mu.Unlock()
+		if r.reqErr != "nil" {
+			stream.Close() // server.go:278
+			return
+		}
+	}
 	var err error
-	connClosed := false
-	var reqAddr, reqErr string
-	var reqFT uint64
-	synctest.Test(t, func(t *testing.T) {
-		// channels must be made inside the bubble, or waiting on them does not count as durably blocked
-		stream = &c06End{run: run, rd: "U", wd: "D", a: c.Up.A, b: c.Up.B, reads: append([]c06Read(nil), c.Up.Reads...),
-			writes: append([]c06Write(nil), c.Down.Writes...), closed: make(chan struct{})}
-		target = &c06End{run: run, rd: "D", wd: "U", a: c.Down.A, b: c.Down.B, reads: append([]c06Read(nil), c.Down.Reads...),
-			writes: append([]c06Write(nil), c.Up.Writes...), closed: make(chan struct{})}
-		stream.from, target.from = target, stream
-		logger := &c06Logger{run: run, logs: map[string][]c06Log{
-			"U": append([]c06Log(nil), c.Up.Logs...), "D": append([]c06Log(nil), c.Down.Logs...)}}
-		if c.Req != nil {
-			// what the client wrote on the stream ahead of its payload (the frame WriteTCPRequest produces)
-			hdr := quicvarint.Append(nil, protocol.FrameTypeTCPRequest)
-			hdr = quicvarint.Append(hdr, uint64(len(c.Req.Addr)))
-			hdr = append(hdr, c.Req.Addr...)
-			hdr = quicvarint.Append(hdr, uint64(c.Req.Pad))
-			hdr = append(hdr, bytes.Repeat([]byte{'p'}, c.Req.Pad)...)
-			stream.hdr, stream.glue = hdr, c.Req.Glue
-			left := len(hdr)
-			for _, n := range c.Req.Segs {
-				if n > 0 && n < left {
-					stream.hsegs = append(stream.hsegs, n)
-					left -= n
-				}
-			}
-			stream.hsegs = append(stream.hsegs, left)
-			// server.go:246 (ProxyStreamHijacker) and server.go:276 (handleTCPRequest)
-			ft, ferr := quicvarint.Read(quicvarint.NewReader(stream))
-			var addr string
-			var rerr error
-			if ferr == nil {
-				addr, rerr = protocol.ReadTCPRequest(stream)
-			}
-			reqAddr, reqFT, reqErr = addr, ft, c06Class(ferr)
-			if ferr == nil {
-				reqErr = c06Class(rerr)
-			}
-			run.mu.Lock()
-			run.rec("A", reqErr)
-			run.mu.Unlock()
-			if reqErr != "nil" {
-				stream.Close() // server.go:278
-				return
-			}
-		}
-		if c.Mode == "fast" {
-			err = copyTwoWay(stream, target)
-		} else {
-			err = copyTwoWayEx("u1", stream, target, logger, stats)
-		}
-		run.mu.Lock()
-		run.rec("F", c06Class(err))
-		run.mu.Unlock()
-		if c.Teardown > 0 {
-			time.Sleep(time.Duration(c.Teardown) * time.Microsecond)
-		}
-		// server.go:338-342
-		run.mu.Lock()
-		target.Close()
-		run.rec("CT")
-		run.mu.Unlock()
-		run.mu.Lock()
-		stream.Close()
-		run.rec("CS")
-		run.mu.Unlock()
-		if err == errDisconnect {
-			run.mu.Lock()
-			connClosed = true
-			run.rec("CC")
-			run.mu.Unlock()
-		}
-		time.Sleep(time.Hour) // virtual: every scripted delay is far shorter
-		synctest.Wait()       // the other loop has run into the closed ends and finished
-	})
+	if c.Mode == "fast" {
+		err = copyTwoWay(stream, target)
+	} else {
+		err = copyTwoWayEx(r.id, stream, target, r.logger, r.stats)
+	}
+	r.err = err
 	run.mu.Lock()
-	defer run.mu.Unlock()
-	res["trace"] = run.trace
-	res["ret"] = c06Class(err)
-	res["tx"] = stats.Tx.Load()
-	res["rx"] = stats.Rx.Load()
+	run.rec("F", c06Class(err))
+	run.mu.Unlock()
+	if c.Teardown > 0 {
+		time.Sleep(time.Duration(c.Teardown) * time.Microsecond)
+	}
+	// server.go:338-342
+	run.mu.Lock()
+	target.Close()
+	run.rec("CT")
+	run.mu.Unlock()
+	run.mu.Lock()
+	stream.Close()
+	run.rec("CS")
+	run.mu.Unlock()
+	if err == errDisconnect {
+		run.mu.Lock()
+		r.connClosed = true
+		run.rec("CC")
+		run.mu.Unlock()
+	}
+}
+
+// result: the relay's outputs and the verdict of the property on this relay alone.  Called after the bubble ended.
+func (r *c06Rel) result(res map[string]any) {
+	c, run, stream, target := r.c, r.run, r.stream, r.target
+	res["ret"] = c06Class(r.err)
+	res["tx"] = r.stats.Tx.Load()
+	res["rx"] = r.stats.Rx.Load()
 	res["sink_up"] = []uint64{uint64(target.sink.Len()), c06Digest(target.sink.Bytes())}
 	res["sink_down"] = []uint64{uint64(stream.sink.Len()), c06Digest(stream.sink.Bytes())}
-	ok, why, facts := c06Verdict(c, run.trace, err, connClosed,
+	ok, why, facts := c06Verdict(c, run.trace, r.err, r.connClosed,
 		map[string]*c06End{"U": stream, "D": target}, map[string]*c06End{"U": target, "D": stream})
 	if c.Req != nil {
 		// the request phase on a well-formed request: accepted, with the address the client wrote
-		res["req_err"], res["req_addr_ok"] = reqErr, reqAddr == c.Req.Addr
+		res["req_err"], res["req_addr_ok"] = r.reqErr, r.reqAddr == c.Req.Addr
 		early := 0
 		for _, ev := range run.trace {
 			if ev[0].(string) == "Q" {
@@ -454,18 +502,168 @@ func c06RunRelay(t *testing.T, c c06Case, res map[string]any) {
 		facts["req_early"] = early
 		if ok {
 			switch {
-			case reqErr != "nil":
-				ok, why = false, fmt.Sprintf("request: a well-formed request (address of %d bytes, padding %d) was rejected with %s", len(c.Req.Addr), c.Req.Pad, reqErr)
-			case reqFT != protocol.FrameTypeTCPRequest || reqAddr != c.Req.Addr:
-				ok, why = false, fmt.Sprintf("request: parsed frame type %d address %q, the client wrote %q", reqFT, reqAddr, c.Req.Addr)
+			case r.reqErr != "nil":
+				ok, why = false, fmt.Sprintf("request: a well-formed request (address of %d bytes, padding %d) was rejected with %s", len(c.Req.Addr), c.Req.Pad, r.reqErr)
+			case r.reqFT != protocol.FrameTypeTCPRequest || r.reqAddr != c.Req.Addr:
+				ok, why = false, fmt.Sprintf("request: parsed frame type %d address %q, the client wrote %q", r.reqFT, r.reqAddr, c.Req.Addr)
 			}
-			res["ok"], res["why"], res["detail"] = ok, c06Stable(why), why
 		}
 	}
 	res["ok"] = ok
 	res["why"] = c06Stable(why) // numbers go to "detail" so that equal failures collapse into one report
 	res["detail"] = why
 	res["facts"] = facts
+}
+
+func c06RunRelay(t *testing.T, c c06Case, res map[string]any) {
+	run := &c06Run{mu: &sync.Mutex{}}
+	var rel *c06Rel
+	synctest.Test(t, func(t *testing.T) {
+		rel = c06NewRel(c, run, "u1")
+		rel.serve()
+		time.Sleep(time.Hour) // virtual: every scripted delay is far shorter
+		synctest.Wait()       // the other loop has run into the closed ends and finished
+	})
+	run.mu.Lock()
+	defer run.mu.Unlock()
+	res["trace"] = run.trace
+	rel.result(res)
+}
+
+// ---- cross-relay runs ("xrelay"): several relays alive in one bubble, all going through the real copyBufPool.
+// Each relay has its own scripted ends, logger and payload pattern (distinct multipliers, so two chunks of two
+// bytes or more from different streams never coincide); relay i starts `start` microseconds into the run.  The
+// property is judged per relay, on that relay's own log and sinks, exactly as for a single relay: what its sinks
+// hold is a prefix of what ITS sources produced, every chunk written is the chunk that loop just read, ... -
+// only now with other relays starting, forwarding and being torn down around it (a loop of an ended relay still
+// parked in Read, late bytes arriving between the return of the copy and the Close of the ends, another relay
+// holding a chunk inside LogTraffic or a slow Write meanwhile).
+// GOMAXPROCS is 1 for the duration of such a run: sync.Pool is per-P, so with one P the order in which buffers
+// put back are handed out again is deterministic (most recent first) and a run is reproducible from its case.
+type c06XRelay struct {
+	c06Case
+	Start int `json:"start"`
+}
+
+type c06XCase struct {
+	K      string      `json:"k"`
+	Relays []c06XRelay `json:"relays"`
+}
+
+func c06RunX(t *testing.T, xc c06XCase, res map[string]any) {
+	defer runtime.GOMAXPROCS(runtime.GOMAXPROCS(1))
+	mu := &sync.Mutex{}
+	world := &c06World{ids: map[uintptr]int{}}
+	rels := make([]*c06Rel, len(xc.Relays))
+	synctest.Test(t, func(t *testing.T) {
+		for i := range xc.Relays {
+			rels[i] = c06NewRel(xc.Relays[i].c06Case, &c06Run{mu: mu, idx: i, world: world}, "u"+strconv.Itoa(i+1))
+		}
+		for i := range rels {
+			go func(r *c06Rel, start int) {
+				if start > 0 {
+					time.Sleep(time.Duration(start) * time.Microsecond)
+				}
+				r.serve()
+			}(rels[i], xc.Relays[i].Start)
+		}
+		time.Sleep(time.Hour)
+		synctest.Wait()
+	})
+	mu.Lock()
+	defer mu.Unlock()
+	res["xtrace"] = world.log
+	res["nbuf"] = len(world.ids)
+	ok, why, detail, bad := true, "", "", -1
+	rr := make([]map[string]any, len(rels))
+	for i, r := range rels {
+		rr[i] = map[string]any{}
+		r.result(rr[i])
+		if ok && rr[i]["ok"] == false {
+			ok, why, bad = false, rr[i]["why"].(string), i
+			detail = fmt.Sprintf("relay %d of %d (id %s): %s%s", i, len(rels), r.id, rr[i]["detail"], c06Foreign(rels, i))
+		}
+	}
+	res["rel"] = rr
+	res["ok"], res["why"], res["detail"], res["bad_relay"] = ok, why, detail, bad
+	res["facts"] = c06XFacts(world.log, len(rels))
+}
+
+// c06Foreign: diagnostics for a relay whose sink does not hold a prefix of its own source: does the stretch where
+// the sink departs from the relay's own stream follow the pattern of another relay's stream?
+func c06Foreign(rels []*c06Rel, i int) string {
+	r := rels[i]
+	for _, d := range []struct {
+		name     string
+		src, snk *c06End
+	}{{"U", r.stream, r.target}, {"D", r.target, r.stream}} {
+		got := d.snk.sink.Bytes()
+		at := -1
+		for k := range got {
+			if got[k] != byte((d.src.a*uint64(k)+d.src.b)%256) {
+				at = k
+				break
+			}
+		}
+		if at < 0 || at+3 > len(got) {
+			continue
+		}
+		for j, o := range rels {
+			if j == i {
+				continue
+			}
+			for _, e := range []struct {
+				name string
+				end  *c06End
+			}{{"client stream", o.stream}, {"target", o.target}} {
+				if got[at+1]-got[at] == byte(e.end.a) && got[at+2]-got[at+1] == byte(e.end.a) {
+					return fmt.Sprintf("; direction %s: from offset %d the sink holds bytes of the %s of relay %d (another connection)", d.name, at, e.name, j)
+				}
+			}
+		}
+		return fmt.Sprintf("; direction %s: the sink departs from the relay's own stream at offset %d", d.name, at)
+	}
+	return ""
+}
+
+// c06XFacts: what kind of overlap the run had (coverage only, no verdict):
+// late = a loop of a relay got bytes from a Read after that relay's copy had returned (before the ends were closed);
+// inflight = while that happened another relay had a chunk between its Read and the end of its Write.
+func c06XFacts(log [][]any, n int) map[string]any {
+	returned := make([]bool, n)
+	type key struct {
+		r int
+		d string
+	}
+	open := map[key]bool{} // chunk read, Write not finished
+	late, inflight, fwd := 0, 0, 0
+	for _, ev := range log {
+		r := ev[0].(int)
+		switch ev[2].(string) {
+		case "F":
+			returned[r] = true
+		case "R":
+			k := key{r, ev[3].(string)}
+			if ev[6].(int) > 0 {
+				if returned[r] {
+					late++
+					for o, v := range open {
+						if v && o.r != r {
+							inflight++
+							break
+						}
+					}
+				}
+				open[k] = true
+			}
+		case "W":
+			open[key{r, ev[3].(string)}] = false
+			if ev[6].(int) > 0 {
+				fwd++
+			}
+		}
+	}
+	return map[string]any{"relays": n, "late_reads": late, "inflight_across_late_read": inflight, "writes": fwd}
 }
 
 func c06Stable(s string) string {
@@ -682,7 +880,19 @@ func TestVerifC06(t *testing.T) {
 			t.Fatal(err)
 		}
 		res := map[string]any{"i": i, "k": c.K}
-		panicked, msg := vCatch(func() { c06RunRelay(t, c, res) })
+		var xc c06XCase
+		if c.K == "xrelay" {
+			if err := json.Unmarshal(raw, &xc); err != nil {
+				t.Fatal(err)
+			}
+		}
+		panicked, msg := vCatch(func() {
+			if c.K == "xrelay" {
+				c06RunX(t, xc, res)
+			} else {
+				c06RunRelay(t, c, res)
+			}
+		})
 		if panicked {
 			res["ok"] = false
 			res["why"] = "panic: " + msg
